@@ -450,8 +450,8 @@ class Module(HasAccessibles):
         if cfg is not None:
             try:
                 for propname, propvalue in cfg.items():
-                    if propname in {'value', 'default', 'constant'}:
-                        # these properties have ValueType(), but should be checked for datatype
+                    if propname == 'constant':
+                        # this property has ValueType(), but should be checked for datatype
                         accessible.datatype(cfg[propname])
                     accessible.setProperty(propname, propvalue)
             except KeyError:
@@ -465,9 +465,9 @@ class Module(HasAccessibles):
         if accessible.export:
             self.accessiblename2attr[accessible.export] = name
         if isinstance(accessible, Parameter):
-            self._handle_writes(name, accessible)
+            self._handle_writes(name, accessible, cfg or ())
 
-    def _handle_writes(self, pname, pobj):
+    def _handle_writes(self, pname, pobj, cfg=()):
         """ register value for writing, if given
         apply default when no value is given (in cfg or as Parameter argument)
         or complain, when cfg is needed
@@ -485,6 +485,16 @@ class Module(HasAccessibles):
         if not pobj.hasDatatype():
             self.errors.append(f'{pname} needs a datatype')
             return
+        # value and default have ValueType(), but must match the datatype. this can be checked
+        # only here, where the datatype is final (properties from cfg applied, limit datatype set)
+        for propname in 'value', 'default':
+            propvalue = getattr(pobj, propname)
+            if propvalue is not None or propname in cfg:
+                try:
+                    pobj.datatype(propvalue)
+                except BadValueError as e:
+                    self.errors.append(f'{pname}.{propname}: {e}')
+                    return
         if pobj.value is None:
             if pobj.needscfg:
                 self.errors.append(f'{pname!r} has no default value and was not given in config!')
